@@ -143,12 +143,17 @@ func (l *loginInboundConn) handleLoginPluginResponse(res *packet.LoginPluginResp
 	}
 
 	// After the consumer ran (it may have queued more messages), fire the
-	// all-handled callback if nothing is outstanding.
+	// all-handled callback if nothing is outstanding. The callback is taken
+	// out of the struct while the lock is held so that it runs at most once:
+	// messages sent after the login has completed must not complete it again.
+	var onAllMessagesHandled func() error
 	l.mu.Lock()
-	done := len(l.outstandingResponses) == 0
-	onAllMessagesHandled := l.onAllMessagesHandled
+	if len(l.outstandingResponses) == 0 {
+		onAllMessagesHandled = l.onAllMessagesHandled
+		l.onAllMessagesHandled = nil
+	}
 	l.mu.Unlock()
-	if done && onAllMessagesHandled != nil {
+	if onAllMessagesHandled != nil {
 		err = errors.Join(err, onAllMessagesHandled())
 	}
 	return err
@@ -157,14 +162,19 @@ func (l *loginInboundConn) handleLoginPluginResponse(res *packet.LoginPluginResp
 func (l *loginInboundConn) loginEventFired(onAllMessagesHandled func() error) error {
 	l.mu.Lock()
 	l.isLoginEventFired = true
-	l.onAllMessagesHandled = onAllMessagesHandled
 	msgs := make([]*packet.LoginPluginMessage, 0, l.loginMessagesToSend.Len())
 	for l.loginMessagesToSend.Len() != 0 {
 		msgs = append(msgs, l.loginMessagesToSend.PopFront())
 	}
+	if len(msgs) != 0 {
+		// Run once the last of these has been answered (handleLoginPluginResponse).
+		l.onAllMessagesHandled = onAllMessagesHandled
+	}
 	l.mu.Unlock()
 
 	if len(msgs) == 0 {
+		// Nothing to wait for: complete now and keep no callback around that a
+		// later SendLoginPluginMessage + response could run a second time.
 		return onAllMessagesHandled()
 	}
 	for _, msg := range msgs {
